@@ -16,7 +16,7 @@ PROPERTY = {
         'recording targets stand for arbitrary callables; eval code reports through a recording eval symbol',
         'metadata codec stub for !unsafe markers on already tagged nodes (native replays use the real pickle codec)',
     ],
-    'bounds': {'scenarios': '21 merge histories (evaluated through Config and through the low-level EvalContext route) of 1..3 stages: call/bind/eval/f-string/import defined, argument override by mapping / list, placeholder filled later, target override by string / by another function node, plain mapping replaced by a call, data referenced by !xref / by evaluated code supplied before or after, overridden data',
+    'bounds': {'scenarios': '22 merge histories (one through an !include on the virtual file system) (evaluated through Config and through the low-level EvalContext route) of 1..3 stages: call/bind/eval/f-string/import defined, argument override by mapping / list, placeholder filled later, target override by string / by another function node, plain mapping replaced by a call, data referenced by !xref / by evaluated code supplied before or after, overridden data',
                'flags': 'safe flag of each source symbolic; one !unsafe marker (symbolic presence) on the node / its wrapper / an argument / the referenced data of a selected stage'},
     'outside': ['!rec nodes, unsafe includes (C06 covers include safety inheritance)', 'more than 3 stages'],
     'per_split_timeout': {'quick': 600, 'thorough': 1800},
@@ -91,10 +91,17 @@ def scenario(k, marks):
     if k == 20:
         # a later stage marks the enclosing mapping !unsafe without touching the call: the call is then below an !unsafe node
         return ['w: ' + plain(0, '{x: !call:%s {a: 1}}' % F), 'w: ' + plain(1, '{y: 1}')], [0, 'mark1'], 'f'
+    if k == 21:
+        # a dynamic node in a file INCLUDED by (possibly) unsafe content: stage 0 = main file, stage 1 overrides an argument
+        from engine import symlib
+        symlib.install_vfs()
+        symlib.vfs_put('/proj/inc.yaml', 'c: !call:%s {a: 1}\nv: 2\n' % F)
+        symlib.vfs_put('/proj/main.yaml', 'w: ' + (m[0] + ' ' if m[0] else '') + '{i: !include inc.yaml, z: 0}\n')
+        return ['/proj/main.yaml', 'w: ' + plain(1, '{i: {c: {b: 3}}}')], [0, 1], 'f'
     raise ValueError(k)
 
 
-NSCEN = 21
+NSCEN = 22
 
 
 def c07_history(split, s0, s1, s2, u, mark, low):
@@ -116,7 +123,7 @@ def c07_history(split, s0, s1, s2, u, mark, low):
     try:
         b = Builder()
         for i, d in enumerate(docs):
-            b.add_source(d, raw_yaml=True, safe=safes[i])
+            b.add_source(d, raw_yaml=not d.startswith('/proj/'), safe=safes[i])
         if low:
             cfg = ctx.evaluate(b.build())          # the documented low-level route (no deep copy)
         else:
